@@ -21,6 +21,7 @@ CLAIMED = {
  "C20": ("trace validation of paired recordings from two separate builds (std+serde, alloc-only) against Trace_Config (projections must agree with each other and with the contract) and of serde round-trip steps against Trace_Tracker/Trace_Config (TLC)", "7/C20"),
  "C11": ("trace validation of recorded text against Render.tla (per-type templates instantiated with the contract's decoded values, branch conditions explicit; float tokens compared numerically; printed heading checked with fixed-point trig) by TLC", "7/C11"),
  "C16": ("TLC model checking of MC_Feed (line loop over a segmented byte stream with short/long gaps; invariants NoCrash, ExactlyOnceInOrder, AllProcessed) + schedules of the bounded model, malformed-line feeds and disconnect/reconnect runs executed against the real 1090 and radar (pty + guarded hook), judged by Trace_Feed", "7/C16"),
+ "C17": ("TLC model checking of MC_RadarUI (handler tables, selection clamp at draw, bursts between draws, arrivals/expiry; invariants NoPanic, SelectionShown, property ViewOnly) + behaviours of the bounded model and random operator sessions driven through the real radar in a pty, hook events and session outcome judged by Trace_UI; CLI grid", "7/C17"),
 }
 NOT_YET = {}
 import subprocess
